@@ -27,12 +27,12 @@ def _make_output(triplets: OneOf(Seq(TupleT(Nat, Nat, RealT(lo=0)), "list"), Seq
 
 
 @contract("pyrepseq.nn._check_common_input", props=["C10"], scope="search_args")
-def _check_common_input(seqs: OneOf(Seq(AnyElem, "list"), Seq(StrT(np=True), "ndarray"), SeriesT(Str, "int")),
+def _check_common_input(seqs: OneOf(Seq(AnyElem, "list"), SeriesT(Str, "int")),
                         max_edits: OneOf(Int, Real, Bool),
                         max_returns: OneOf(NoneType, Int, Real),
                         n_cpu: OneOf(Int, Real),
                         custom_distance: OneOf(NoneType, Str, FnT(Str, Str, returns=Real)),
-                        max_cust_dist: OneOf(RealT(), Int, Const(float("inf")), NoneType),
+                        max_cust_dist: OneOf(RealT(), Const(float("inf")), NoneType),
                         output_type: Str,
                         seqs2: OneOf(NoneType, Seq(AnyElem, "list"), Int)):
     # invalid arguments are rejected with AssertionError, valid ones accepted silently; nothing else happens
